@@ -12,19 +12,29 @@ variable {s : Str}
 
 theorem site_core {st0 st5 : PState} {X T : Str} (hy : Sync s st0) (hy5 : Sync s st5)
     (h0 : st0.cur.tid ≠ .eof) (h0' : st0.cur.tid ≠ .eol)
-    (h5 : st5.cur.tid = .rparen ∨ st5.cur.tid = .rbracket)
+    (h5 : isCloser st5.cur.tid)
     (hX : rem st0 = X ++ rem st5) (hT : rem st5 = printed st5.cur ++ T) :
-    slice s (lineOff s st0.cur.lineno + st0.cur.colno) (lineOff s st5.cur.lineno + (st5.cur.colno + 1)) =
-      X ++ st5.cur.value := by
-  have h5e : st5.cur.tid ≠ .eof := by rcases h5 with h | h <;> rw [h] <;> decide
-  have h5l : st5.cur.tid ≠ .eol := by rcases h5 with h | h <;> rw [h] <;> decide
-  obtain ⟨pre, e1, l1, _⟩ := sync_rem hy h0 h0'
-  obtain ⟨pre5, e5, l5, c5⟩ := sync_rem hy5 h5e h5l
-  have pv : printed st5.cur = st5.cur.value := printed_plain (by rcases h5 with h | h <;> rw [h] <;> decide)
-  rw [← l1, ← Nat.add_assoc, ← l5, ← pv]
-  refine slice_core (T := T) ?_ ?_ (c5 h5)
-  · rw [e1, hX, hT]
-  · rw [e5, hT]
+    ExtentIs s { lineno := st0.cur.lineno, colno := st0.cur.colno, endLineno := st5.cur.lineno,
+                 endColno := st5.cur.colno + 1 } (X ++ st5.cur.value) := by
+  have h5e : st5.cur.tid ≠ .eof := by rcases h5 with h | h | h <;> rw [h] <;> decide
+  have h5l : st5.cur.tid ≠ .eol := by rcases h5 with h | h | h <;> rw [h] <;> decide
+  obtain ⟨pre, e1, a1, _⟩ := sync_rem hy h0 h0'
+  obtain ⟨pre5, e5, a5, c5⟩ := sync_rem hy5 h5e h5l
+  have pv : printed st5.cur = st5.cur.value := printed_plain (by rcases h5 with h | h | h <;> rw [h] <;> decide)
+  obtain ⟨cl, cn⟩ := c5 h5
+  have e5' : s = pre5 ++ (printed st5.cur ++ T) := by rw [e5, hT]
+  have a6 := addr_succ e5' cl cn a5
+  have l1 := a1.lineOff
+  have l5 := a5.lineOff
+  refine ⟨?_, ?_, ?_⟩
+  · show Addr s st0.cur.lineno st0.cur.colno (lineOff s st0.cur.lineno + st0.cur.colno)
+    rw [l1]; exact a1
+  · show Addr s st5.cur.lineno (st5.cur.colno + 1) (lineOff s st5.cur.lineno + (st5.cur.colno + 1))
+    rw [← Nat.add_assoc, l5]; exact a6
+  · show slice s (lineOff s st0.cur.lineno + st0.cur.colno) (lineOff s st5.cur.lineno + (st5.cur.colno + 1)) = _
+    rw [l1, ← Nat.add_assoc, l5, ← pv]
+    refine slice_core (T := T) ?_ e5' cl
+    rw [e1, hX, hT]
 
 /-! ### which results are `IdNode`s -/
 
@@ -116,7 +126,7 @@ theorem e10_sp : Sp (s := s) e10 := by
   cases b1
   case true =>
     simp only [if_true] at h
-    exact step_leaf ha1 h (spans_boolean _ _)
+    exact step_leaf ha1 h ((spans_boolean _ _).mpr (noEnd_ofTok _))
   case false =>
     cases accept_false ha1
     simp only [Bool.false_eq_true, if_false, bind_ok] at h
@@ -124,7 +134,7 @@ theorem e10_sp : Sp (s := s) e10 := by
     cases b2
     case true =>
       simp only [if_true] at h
-      exact step_leaf ha2 h (spans_boolean _ _)
+      exact step_leaf ha2 h ((spans_boolean _ _).mpr (noEnd_ofTok _))
     case false =>
       cases accept_false ha2
       simp only [Bool.false_eq_true, if_false, bind_ok] at h
@@ -132,7 +142,7 @@ theorem e10_sp : Sp (s := s) e10 := by
       cases b3
       case true =>
         simp only [if_true] at h
-        exact step_leaf ha3 h (spans_id _ _)
+        exact step_leaf ha3 h ((spans_id _ _).mpr (noEnd_ofTok _))
       case false =>
         cases accept_false ha3
         simp only [Bool.false_eq_true, if_false, bind_ok] at h
@@ -140,7 +150,7 @@ theorem e10_sp : Sp (s := s) e10 := by
         cases b4
         case true =>
           simp only [if_true] at h
-          exact step_leaf ha4 h (spans_number _ _ _)
+          exact step_leaf ha4 h ((spans_number _ _ _).mpr (noEnd_ofTok _))
         case false =>
           cases accept_false ha4
           simp only [Bool.false_eq_true, if_false, bind_ok] at h
@@ -150,44 +160,52 @@ theorem e10_sp : Sp (s := s) e10 := by
             cases acceptAny_none ha5
             simp only [emptyAtCur] at h
             cases h
-            exact Step.refl (spans_empty _)
+            exact Step.refl ((spans_empty _).mpr (noEnd_at _ _))
           case some tid =>
             simp only at h
             split at h
-            · exact step_leafAny ha5 h (spans_string _ _ _ _ _)
+            · exact step_leafAny ha5 h ((spans_string _ _ _ _ _).mpr (noEnd_ofTok _))
             · simp only [bind_ok, get_ok] at h
               obtain ⟨_, _, ⟨rfl, rfl⟩, h⟩ := h
               cases hesc : escape s5.names st.cur.value <;> rw [hesc] at h <;> simp only at h
               · simp [fail_ok] at h
-              · exact step_leafAny ha5 h (spans_string _ _ _ _ _)
+              · exact step_leafAny ha5 h ((spans_string _ _ _ _ _).mpr (noEnd_ofTok _))
 
 /-! ### `args()` and `key_values()` -/
 
-theorem spans_argsAppend {a x : Node} (ha : Spans s a) (hx : Spans s x) : Spans s (argsAppend a x) := by
+theorem argsHasKw_addComma (a c : Node) : argsHasKw (argsAddComma a c) = argsHasKw a := by
+  cases a <;> rfl
+
+/-- `ArgumentNode.append` with no keyword argument present: `order_error` stays unset -/
+theorem spans_argsAppend {a x : Node} (ha : Spans s a) (hx : Spans s x) (hk : argsHasKw a = false) :
+    Spans s (argsAppend a x) := by
   cases a <;> simp only [argsAppend] <;> try exact ha
   rw [spans_args] at ha ⊢
+  simp only [argsHasKw] at hk
+  have hoe : ∀ oe : Bool, oe = false → (oe || decide (_ > 0)) = false := fun oe h => by rw [h, hk]; rfl
   split
-  · exact ha
-  · exact ⟨(spansL_snoc _ _).mpr ⟨ha.1, hx⟩, ha.2⟩
+  · exact ⟨ha.1, hoe _ ha.2.1, ha.2.2⟩
+  · exact ⟨ha.1, hoe _ ha.2.1, (spansL_snoc _ _).mpr ⟨ha.2.2.1, hx⟩, ha.2.2.2⟩
 
 theorem spans_argsAddComma {a c : Node} (ha : Spans s a) (hc : Spans s c) : Spans s (argsAddComma a c) := by
   cases a <;> simp only [argsAddComma] <;> try exact ha
   rw [spans_args] at ha ⊢
-  exact ⟨ha.1, (spansL_snoc _ _).mpr ⟨ha.2.1, hc⟩, ha.2.2⟩
+  exact ⟨ha.1, ha.2.1, ha.2.2.1, (spansL_snoc _ _).mpr ⟨ha.2.2.2.1, hc⟩, ha.2.2.2.2⟩
 
 theorem spans_argsAddColon {a c : Node} (ha : Spans s a) (hc : Spans s c) : Spans s (argsAddColon a c) := by
   cases a <;> simp only [argsAddColon] <;> try exact ha
   rw [spans_args] at ha ⊢
-  exact ⟨ha.1, ha.2.1, (spansL_snoc _ _).mpr ⟨ha.2.2.1, hc⟩, ha.2.2.2⟩
+  exact ⟨ha.1, ha.2.1, ha.2.2.1, ha.2.2.2.1, (spansL_snoc _ _).mpr ⟨ha.2.2.2.2.1, hc⟩, ha.2.2.2.2.2⟩
 
 theorem spans_argsSetKw {a k v : Node} (ha : Spans s a) (hk : Spans s k) (hv : Spans s v) :
     Spans s (argsSetKw a k v) := by
   cases a <;> simp only [argsSetKw] <;> try exact ha
   rw [spans_args] at ha ⊢
-  exact ⟨ha.1, ha.2.1, ha.2.2.1, (spansL_snoc _ _).mpr ⟨ha.2.2.2.1, hk⟩, (spansL_snoc _ _).mpr ⟨ha.2.2.2.2, hv⟩⟩
+  exact ⟨ha.1, ha.2.1, ha.2.2.1, ha.2.2.2.1, ha.2.2.2.2.1, (spansL_snoc _ _).mpr ⟨ha.2.2.2.2.2.1, hk⟩,
+    (spansL_snoc _ _).mpr ⟨ha.2.2.2.2.2.2, hv⟩⟩
 
-theorem spans_emptyArgs (b : Base) : Spans s (.args b [] [] [] [] [] false) :=
-  (spans_args _ _ _ _ _ _ _).mpr ⟨spansL_nil, spansL_nil, spansL_nil, spansL_nil, spansL_nil⟩
+theorem spans_emptyArgs (b : Base) (hb : NoEnd b) : Spans s (.args b [] [] [] [] [] false) :=
+  (spans_args _ _ _ _ _ _ _).mpr ⟨hb, rfl, spansL_nil, spansL_nil, spansL_nil, spansL_nil, spansL_nil⟩
 
 /-- the loops of `args()` / `key_values()`: the result contains the argument node and the pending statement -/
 def ArgsLoopSp (s : Str) (f : Node → Node → P Node) : Prop :=
@@ -214,7 +232,8 @@ theorem argsLoop_sp {stmt : P Node} (hp : Sp (s := s) stmt) (j : Nat) : ArgsLoop
         have t3 := hp _ _ _ hx'
         have t4 := ih _ _ _ _ _ hloop
         exact (t1.trans (t2.trans (t3.trans t4))).mono
-          (fun ⟨qc, _, qx', ql⟩ ha hx => ql (spans_argsAppend (spans_argsAddComma ha qc) hx) qx')
+          (fun ⟨qc, qk, qx', ql⟩ ha hx =>
+            ql (spans_argsAppend (spans_argsAddComma ha qc) hx ((argsHasKw_addComma _ _).trans qk)) qx')
       case false =>
         cases accept_false ha1
         simp only [Bool.false_eq_true, if_false, bind_ok] at h
@@ -225,7 +244,7 @@ theorem argsLoop_sp {stmt : P Node} (hp : Sp (s := s) stmt) (j : Nat) : ArgsLoop
           simp only [Bool.false_eq_true, if_false, bind_ok, pure_ok] at h
           obtain ⟨_, s3, hno, h⟩ := h
           cases h
-          exact (step_noteOrder (s := s) (w := true) hno).mono (fun _ ha hx => spans_argsAppend ha hx)
+          exact (step_noteOrder (s := s) (w := true) hno).mono (fun qk ha hx => spans_argsAppend ha hx qk)
         case true =>
           simp only [if_true, bind_ok, prev_ok] at h
           obtain ⟨tk, s3, hpv, c, s4, hc, h⟩ := h
@@ -261,7 +280,7 @@ theorem args_sp {stmt : P Node} (hp : Sp (s := s) stmt) (k : Nat) : Sp (s := s) 
   have t1 := hp _ _ _ hx
   have t2 := step_create (s := s) (w := true) hcr
   have t3 := argsLoop_sp hp k _ _ _ _ _ hloop
-  exact (t1.trans (t2.trans t3)).mono (fun ⟨qx, qa, ql⟩ => ql (qa.mpr (spans_emptyArgs _)) qx)
+  exact (t1.trans (t2.trans t3)).mono (fun ⟨qx, qa, ql⟩ => ql (qa.mpr (spans_emptyArgs _ (noEnd_at _ _))) qx)
 
 theorem kvLoop_sp {stmt : P Node} (hp : Sp (s := s) stmt) (j : Nat) : ArgsLoopSp s (kvLoop stmt j) := by
   induction j with
@@ -312,7 +331,7 @@ theorem keyValues_sp {stmt : P Node} (hp : Sp (s := s) stmt) (k : Nat) : Sp (s :
   have t1 := hp _ _ _ hx
   have t2 := step_create (s := s) (w := true) hcr
   have t3 := kvLoop_sp hp k _ _ _ _ _ hloop
-  exact (t1.trans (t2.trans t3)).mono (fun ⟨qx, qa, ql⟩ => ql (qa.mpr (spans_emptyArgs _)) qx)
+  exact (t1.trans (t2.trans t3)).mono (fun ⟨qx, qa, ql⟩ => ql (qa.mpr (spans_emptyArgs _ (noEnd_at _ _))) qx)
 
 
 /-! ### `e9`: parentheses, array and dictionary literals -/
@@ -335,7 +354,7 @@ theorem arr_site {stmt : P Node} {k : Nat} {st s2 s3 s4 s5 s7 : PState} {lb a rb
     · cases h'
     · exact ht
   have core := site_core (X := emit lb ++ emit a) (T := wsText s5.ws ++ rem s7) hy hy4
-    (by rw [htid]; decide) (by rw [htid]; decide) (Or.inr h2)
+    (by rw [htid]; decide) (by rw [htid]; decide) (Or.inr (Or.inl h2))
     (by rw [tl hws, r4]; simp [List.append_assoc]) (h7 w4)
   have erb : rb = Node.addWs s5.ws (symbolOf s5.prev) := (create_spec hr).1
   have elb : lb = Node.addWs s2.ws (symbolOf st.cur) := (create_spec hl).1
@@ -344,8 +363,70 @@ theorem arr_site {stmt : P Node} {k : Nat} {st s2 s3 s4 s5 s7 : PState} {lb a rb
   have p3 : rb.lineno = s4.cur.lineno := by rw [erb, h3]; rfl
   have p4 : rb.colno = s4.cur.colno := by rw [erb, h3]; rfl
   have p5 : symValue rb = s4.cur.value := by rw [erb, h3]; rfl
-  show slice s (lineOff s lb.lineno + lb.colno) (lineOff s rb.lineno + (rb.colno + 1)) =
-    emit lb ++ emit a ++ symValue rb
+  show ExtentIs s { lineno := lb.lineno, colno := lb.colno, endLineno := rb.lineno, endColno := rb.colno + 1 }
+    (emit lb ++ emit a ++ symValue rb)
+  rw [p1, p2, p3, p4, p5]; exact core
+
+/-- the extent of a `DictNode`: from its `{` to the end of its `}` -/
+theorem dict_site {stmt : P Node} {k : Nat} {st s2 s3 s4 s5 s7 : PState} {lb a rb : Node} {u : Unit}
+    (hs : Emits stmt)
+    (ha : accept .lcurl st = .ok (true, s2)) (hl : createSymbol st.cur s2 = .ok (lb, s3))
+    (hargs : keyValues stmt k s3 = .ok (a, s4)) (hbe : blockExpect .rcurl s4 = .ok (u, s5))
+    (hr : createSymbol s5.prev s5 = .ok (rb, s7)) (hd : s7.lossy = 0) (hws : st.ws = [])
+    (hy : Sync s st) (hy4 : Sync s s4) :
+    SpanExact s (.dict { lineno := lb.lineno, colno := lb.colno, endLineno := rb.lineno,
+                         endColno := rb.colno + 1 } lb a rb) := by
+  obtain ⟨h1, h2, h3, h4, h5, h6, h7⟩ := accept_create (blockExpect_spec hbe) hr (by decide) trivial
+  obtain ⟨da, ta⟩ := keyValues_emits hs k _ _ _ hargs (by omega)
+  obtain ⟨dl, wl, tl⟩ := sym_after_accept' ha hl (by decide)
+  obtain ⟨w4, r4⟩ := ta wl
+  have htid : st.cur.tid = .lcurl := by
+    rcases accept_spec ha with ⟨h', _⟩ | ⟨_, ht, _⟩
+    · cases h'
+    · exact ht
+  have core := site_core (X := emit lb ++ emit a) (T := wsText s5.ws ++ rem s7) hy hy4
+    (by rw [htid]; decide) (by rw [htid]; decide) (Or.inr (Or.inr h2))
+    (by rw [tl hws, r4]; simp [List.append_assoc]) (h7 w4)
+  have erb : rb = Node.addWs s5.ws (symbolOf s5.prev) := (create_spec hr).1
+  have elb : lb = Node.addWs s2.ws (symbolOf st.cur) := (create_spec hl).1
+  have p1 : lb.lineno = st.cur.lineno := by rw [elb]; rfl
+  have p2 : lb.colno = st.cur.colno := by rw [elb]; rfl
+  have p3 : rb.lineno = s4.cur.lineno := by rw [erb, h3]; rfl
+  have p4 : rb.colno = s4.cur.colno := by rw [erb, h3]; rfl
+  have p5 : symValue rb = s4.cur.value := by rw [erb, h3]; rfl
+  show ExtentIs s { lineno := lb.lineno, colno := lb.colno, endLineno := rb.lineno, endColno := rb.colno + 1 }
+    (emit lb ++ emit a ++ symValue rb)
+  rw [p1, p2, p3, p4, p5]; exact core
+
+/-- the extent of a `ParenthesizedNode`: from its `(` to the end of its `)` -/
+theorem paren_site {stmt : P Node} {st s2 s3 s4 s5 s7 : PState} {lb e rb : Node} {u : Unit}
+    (hs : Emits stmt)
+    (ha : accept .lparen st = .ok (true, s2)) (hl : createSymbol st.cur s2 = .ok (lb, s3))
+    (he : stmt s3 = .ok (e, s4)) (hbe : blockExpect .rparen s4 = .ok (u, s5))
+    (hr : createSymbol s5.prev s5 = .ok (rb, s7)) (hd : s7.lossy = 0) (hws : st.ws = [])
+    (hy : Sync s st) (hy4 : Sync s s4) :
+    SpanExact s (.paren { lineno := lb.lineno, colno := lb.colno, endLineno := rb.lineno,
+                          endColno := rb.colno + 1 } lb e rb) := by
+  obtain ⟨h1, h2, h3, h4, h5, h6, h7⟩ := accept_create (blockExpect_spec hbe) hr (by decide) trivial
+  obtain ⟨de, _, te⟩ := hs _ _ _ he (by omega)
+  obtain ⟨dl, wl, tl⟩ := sym_after_accept' ha hl (by decide)
+  obtain ⟨w4, r4⟩ := te wl
+  have htid : st.cur.tid = .lparen := by
+    rcases accept_spec ha with ⟨h', _⟩ | ⟨_, ht, _⟩
+    · cases h'
+    · exact ht
+  have core := site_core (X := emit lb ++ emit e) (T := wsText s5.ws ++ rem s7) hy hy4
+    (by rw [htid]; decide) (by rw [htid]; decide) (Or.inl h2)
+    (by rw [tl hws, r4]; simp [List.append_assoc]) (h7 w4)
+  have erb : rb = Node.addWs s5.ws (symbolOf s5.prev) := (create_spec hr).1
+  have elb : lb = Node.addWs s2.ws (symbolOf st.cur) := (create_spec hl).1
+  have p1 : lb.lineno = st.cur.lineno := by rw [elb]; rfl
+  have p2 : lb.colno = st.cur.colno := by rw [elb]; rfl
+  have p3 : rb.lineno = s4.cur.lineno := by rw [erb, h3]; rfl
+  have p4 : rb.colno = s4.cur.colno := by rw [erb, h3]; rfl
+  have p5 : symValue rb = s4.cur.value := by rw [erb, h3]; rfl
+  show ExtentIs s { lineno := lb.lineno, colno := lb.colno, endLineno := rb.lineno, endColno := rb.colno + 1 }
+    (emit lb ++ emit e ++ symValue rb)
   rw [p1, p2, p3, p4, p5]; exact core
 
 theorem e9_sp {stmt : P Node} (hs : Emits stmt) (hp : Sp (s := s) stmt) (k : Nat) : Sp (s := s) (e9 stmt k) := by
@@ -361,7 +442,14 @@ theorem e9_sp {stmt : P Node} (hs : Emits stmt) (hp : Sp (s := s) stmt) (k : Nat
     have t1 := step_sym (s := s) (w := true) ha1 hl
     have t2 := hp _ _ _ he
     have t3 := step_sym (s := s) (w := true) (blockExpect_spec hbe) hr
-    exact (t1.trans (t2.trans t3)).mono (fun ⟨q1, q2, q3⟩ => (spans_paren _ _ _ _).mpr ⟨q1, q2, q3⟩)
+    refine ⟨fun hd => t1.back (t2.back (t3.back hd)), fun hd hw hy => ?_⟩
+    have d4 := t3.back hd
+    have d3 := t2.back d4
+    obtain ⟨w3, y3, q1⟩ := t1.fwd d3 hw hy
+    obtain ⟨w4, y4, q2⟩ := t2.fwd d4 w3 y3
+    obtain ⟨w7, y7, q3⟩ := t3.fwd hd w4 y4
+    have site := paren_site hs ha1 hl he hbe hr hd (hw rfl) hy y4
+    exact ⟨w7, y7, (spans_paren _ _ _ _).mpr ⟨site, q1, q2, q3⟩⟩
   case false =>
     cases accept_false ha1
     simp only [Bool.false_eq_true, if_false, bind_ok] at h
@@ -398,8 +486,16 @@ theorem e9_sp {stmt : P Node} (hs : Emits stmt) (hp : Sp (s := s) stmt) (k : Nat
         have t2 := keyValues_sp hp k _ _ _ hargs
         have t3 := step_sym (s := s) (w := true) (blockExpect_spec hbe) hr
         have t4 := step_create (s := s) (w := true) hcr
-        exact (t1.trans (t2.trans (t3.trans t4))).mono
-          (fun ⟨q1, q2, q3, q4⟩ => q4.mpr ((spans_dict _ _ _ _).mpr ⟨q1, q2, q3⟩))
+        refine ⟨fun hd => t1.back (t2.back (t3.back (t4.back hd))), fun hd hw hy => ?_⟩
+        have d7 := t4.back hd
+        have d4 := t3.back d7
+        have d3 := t2.back d4
+        obtain ⟨w3, y3, q1⟩ := t1.fwd d3 hw hy
+        obtain ⟨w4, y4, q2⟩ := t2.fwd d4 w3 y3
+        obtain ⟨w7, y7, q3⟩ := t3.fwd d7 w4 y4
+        obtain ⟨wE, yE, q4⟩ := t4.fwd hd w7 y7
+        have site := dict_site hs ha3 hl hargs hbe hr d7 (hw rfl) hy y4
+        exact ⟨wE, yE, q4.mpr ((spans_dict _ _ _ _).mpr ⟨site, q1, q2, q3⟩)⟩
       case false =>
         cases accept_false ha3
         simp only [Bool.false_eq_true, if_false] at h
@@ -418,7 +514,7 @@ theorem indexCall_sp {stmt : P Node} (hp : Sp (s := s) stmt) {source : Node} {s0
   have t3 := step_sym (s := s) (w := true) (expect_spec hex) hr
   have t4 := step_create (s := s) (w := true) hcr
   exact (t1.trans (t2.trans (t3.trans t4))).mono
-    (fun ⟨q1, q2, q3, q4⟩ hsrc => q4.mpr ((spans_index _ _ _ _ _).mpr ⟨hsrc, q1, q2, q3⟩))
+    (fun ⟨q1, q2, q3, q4⟩ hsrc => q4.mpr ((spans_index _ _ _ _ _).mpr ⟨noEnd_at _ _, hsrc, q1, q2, q3⟩))
 
 /-- the extent of a `MethodNode`: from its name to the end of its `)` -/
 theorem meth_site {stmt : P Node} {k : Nat} {s2 s3 s4 s6 s7 s9 s10 : PState} {name lpar a rpar : Node}
@@ -428,8 +524,8 @@ theorem meth_site {stmt : P Node} {k : Nat} {s2 s3 s4 s6 s7 s9 s10 : PState} {na
     (hargs : args stmt k s6 = .ok (a, s7)) (hrp : createSymbol s7.cur s7 = .ok (rpar, s9))
     (hex2 : expect .rparen s9 = .ok (u', s10)) (hd : s10.lossy = 0) (hws : s2.ws = [])
     (hy : Sync s s2) (hy7 : Sync s s7) :
-    extentSlice s { lineno := name.lineno, colno := name.colno, endLineno := rpar.lineno,
-                    endColno := rpar.colno + 1 } = emit name ++ emit lpar ++ emit a ++ symValue rpar := by
+    ExtentIs s { lineno := name.lineno, colno := name.colno, endLineno := rpar.lineno,
+                 endColno := rpar.colno + 1 } (emit name ++ emit lpar ++ emit a ++ symValue rpar) := by
   obtain ⟨d10, t10⟩ := accept_G (expect_spec hex2) (by decide)
   obtain ⟨_, _, _, d9⟩ := create_spec hrp
   obtain ⟨da, ta⟩ := args_emits hs k _ _ _ hargs (by omega)
@@ -452,8 +548,6 @@ theorem meth_site {stmt : P Node} {k : Nat} {s2 s3 s4 s6 s7 s9 s10 : PState} {na
   have p3 : rpar.lineno = s7.cur.lineno := by rw [erb]; rfl
   have p4 : rpar.colno = s7.cur.colno := by rw [erb]; rfl
   have p5 : symValue rpar = s7.cur.value := by rw [erb]; rfl
-  show slice s (lineOff s name.lineno + name.colno) (lineOff s rpar.lineno + (rpar.colno + 1)) =
-    emit name ++ emit lpar ++ emit a ++ symValue rpar
   rw [p1, p2, p3, p4, p5]; exact core
 
 theorem methodCall_sp {stmt : P Node} (hs : Emits stmt) (hp : Sp (s := s) stmt) (k : Nat) (j : Nat) :
@@ -585,8 +679,8 @@ theorem fn_site {stmt : P Node} {k : Nat} {st s1 s3 s4 s5 s6 s8 : PState} {left 
   have p3 : rpar.base.endLineno = s5.cur.lineno := by rw [erb, h3]; rfl
   have p4 : rpar.base.endColno = s5.cur.colno := by rw [erb, h3]; rfl
   have p5 : symValue rpar = s5.cur.value := by rw [erb, h3]; rfl
-  show slice s (lineOff s left.lineno + left.colno) (lineOff s rpar.base.endLineno + (rpar.base.endColno + 1)) =
-    emit left ++ emit lpar ++ emit a ++ symValue rpar
+  show ExtentIs s { lineno := left.lineno, colno := left.colno, endLineno := rpar.base.endLineno,
+                    endColno := rpar.base.endColno + 1 } (emit left ++ emit lpar ++ emit a ++ symValue rpar)
   rw [p1, p2, p3, p4, p5]; exact core
 
 theorem e8_sp {stmt : P Node} (hs : Emits stmt) (hp : Sp (s := s) stmt) (k : Nat) : Sp (s := s) (e8 stmt k) := by
@@ -645,7 +739,7 @@ theorem e7_sp {stmt : P Node} {k : Nat} (h8 : Sp (s := s) (e8 stmt k)) : Sp (s :
     obtain ⟨tk, s2, hpv, sym, s3, hsym, t, s4, hc, v, s5, hv, hcr⟩ := h
     cases hpv; cases hc
     exact ((step_sym (w := true) ha1 hsym).trans ((h8 _ _ _ hv).trans (step_create hcr))).mono
-      (fun ⟨q1, q2, q3⟩ => q3.mpr ((spans_unop _ _ _ _).mpr ⟨q1, q2⟩))
+      (fun ⟨q1, q2, q3⟩ => q3.mpr ((spans_unop _ _ _ _).mpr ⟨noEnd_at _ _, q1, q2⟩))
   case false =>
     cases accept_false ha1
     simp only [Bool.false_eq_true, if_false, bind_ok] at h
@@ -656,7 +750,7 @@ theorem e7_sp {stmt : P Node} {k : Nat} (h8 : Sp (s := s) (e8 stmt k)) : Sp (s :
       obtain ⟨tk, s2, hpv, sym, s3, hsym, t, s4, hc, v, s5, hv, hcr⟩ := h
       cases hpv; cases hc
       exact ((step_sym (w := true) ha2 hsym).trans ((h8 _ _ _ hv).trans (step_create hcr))).mono
-        (fun ⟨q1, q2, q3⟩ => q3.mpr ((spans_unop _ _ _ _).mpr ⟨q1, q2⟩))
+        (fun ⟨q1, q2, q3⟩ => q3.mpr ((spans_unop _ _ _ _).mpr ⟨noEnd_at _ _, q1, q2⟩))
     case false =>
       cases accept_false ha2
       simp only [Bool.false_eq_true, if_false] at h
@@ -664,12 +758,12 @@ theorem e7_sp {stmt : P Node} {k : Nat} (h8 : Sp (s := s) (e8 stmt k)) : Sp (s :
 
 /-- one round of a binary-operator loop: `op = create_node(SymbolNode, previous); left = create_node(BinOp, left, op, operand())` -/
 theorem binop_round {k' : BinKind} {b : Base} {left sym r nd n : Node} {st s3 s4 s5 st' : PState}
-    (t1 : Step s true true st s3 (Spans s sym)) (t2 : Step s true true s3 s4 (Spans s r))
+    (hb : NoEnd b) (t1 : Step s true true st s3 (Spans s sym)) (t2 : Step s true true s3 s4 (Spans s r))
     (hcr : create (.binop k' b left sym r) s4 = .ok (nd, s5))
     (t4 : Step s true true s5 st' (Spans s nd → Spans s n)) :
     Step s true true st st' (Spans s left → Spans s n) :=
   (t1.trans (t2.trans ((step_create hcr).trans t4))).mono
-    (fun ⟨q1, q2, q3, q4⟩ hl => q4 (q3.mpr ((spans_binop _ _ _ _ _).mpr ⟨hl, q1, q2⟩)))
+    (fun ⟨q1, q2, q3, q4⟩ hl => q4 (q3.mpr ((spans_binop _ _ _ _ _).mpr ⟨hb, hl, q1, q2⟩)))
 
 theorem e6Loop_sp {stmt : P Node} {k : Nat} (h7 : Sp (s := s) (e7 stmt k)) (j : Nat) :
     LoopSp (s := s) (e6Loop stmt k j) := by
@@ -689,7 +783,7 @@ theorem e6Loop_sp {stmt : P Node} {k : Nat} (h7 : Sp (s := s) (e7 stmt k)) (j : 
       simp only [bind_ok, prev_ok] at h
       obtain ⟨tk, s2, hpv, sym, s3, hsym, r, s4, hr, nd, s5, hcr, hloop⟩ := h
       cases hpv
-      exact binop_round (step_symAny ha hsym) (h7 _ _ _ hr) hcr (ih _ _ _ _ hloop)
+      exact binop_round (noEnd_at _ _) (step_symAny ha hsym) (h7 _ _ _ hr) hcr (ih _ _ _ _ hloop)
 
 theorem e6_sp {stmt : P Node} {k : Nat} (h7 : Sp (s := s) (e7 stmt k)) : Sp (s := s) (e6 stmt k) :=
   sp_of_loop h7 (e6Loop_sp h7 k)
@@ -712,7 +806,7 @@ theorem e5Loop_sp {stmt : P Node} {k : Nat} (h6 : Sp (s := s) (e6 stmt k)) (j : 
       simp only [bind_ok, prev_ok] at h
       obtain ⟨tk, s2, hpv, sym, s3, hsym, r, s4, hr, nd, s5, hcr, hloop⟩ := h
       cases hpv
-      exact binop_round (step_symAny ha hsym) (h6 _ _ _ hr) hcr (ih _ _ _ _ hloop)
+      exact binop_round (noEnd_at _ _) (step_symAny ha hsym) (h6 _ _ _ hr) hcr (ih _ _ _ _ hloop)
 
 theorem e5_sp {stmt : P Node} {k : Nat} (h6 : Sp (s := s) (e6 stmt k)) : Sp (s := s) (e5 stmt k) :=
   sp_of_loop h6 (e5Loop_sp h6 k)
@@ -737,7 +831,7 @@ theorem e4_sp {stmt : P Node} {k : Nat} (h5 : Sp (s := s) (e5 stmt k)) : Sp (s :
     obtain ⟨tk, s2, hpv, sym, s3, hsym, r, s4, hr, hcr⟩ := h
     cases hpv
     exact (t0.trans ((step_symAny hany hsym).trans ((h5 _ _ _ hr).trans (step_create hcr)))).mono
-      (fun ⟨q0, q1, q2, q3⟩ => q3.mpr ((spans_binop _ _ _ _ _).mpr ⟨q0, q1, q2⟩))
+      (fun ⟨q0, q1, q2, q3⟩ => q3.mpr ((spans_binop _ _ _ _ _).mpr ⟨noEnd_at _ _, q0, q1, q2⟩))
   case none =>
     cases acceptAny_none hany
     simp only [bind_ok] at h
@@ -765,7 +859,7 @@ theorem e4_sp {stmt : P Node} {k : Nat} (h5 : Sp (s := s) (e5 stmt k)) : Sp (s :
         · simp only [bind_ok] at h
           obtain ⟨sym, s7, hsym, r, s8, hr, hcr⟩ := h
           exact (t0.trans ((step_notin hnot hin hsym).trans ((h5 _ _ _ hr).trans (step_create hcr)))).mono
-            (fun ⟨q0, q1, q2, q3⟩ => q3.mpr ((spans_binop _ _ _ _ _).mpr ⟨q0, q1, q2⟩))
+            (fun ⟨q0, q1, q2, q3⟩ => q3.mpr ((spans_binop _ _ _ _ _).mpr ⟨noEnd_at _ _, q0, q1, q2⟩))
 
 theorem e3Loop_sp {stmt : P Node} {k : Nat} (h4 : Sp (s := s) (e4 stmt k)) (j : Nat) :
     LoopSp (s := s) (e3Loop stmt k j) := by
@@ -789,7 +883,7 @@ theorem e3Loop_sp {stmt : P Node} {k : Nat} (h4 : Sp (s := s) (e4 stmt k)) (j : 
       · simp [raiseAt_ok] at h
       · simp only [bind_ok] at h
         obtain ⟨r, s4, hr, nd, s5, hcr, hloop⟩ := h
-        exact binop_round (step_sym ha hsym) (h4 _ _ _ hr) hcr (ih _ _ _ _ hloop)
+        exact binop_round (noEnd_at _ _) (step_sym ha hsym) (h4 _ _ _ hr) hcr (ih _ _ _ _ hloop)
 
 theorem e3_sp {stmt : P Node} {k : Nat} (h4 : Sp (s := s) (e4 stmt k)) : Sp (s := s) (e3 stmt k) :=
   sp_of_loop h4 (e3Loop_sp h4 k)
@@ -816,7 +910,7 @@ theorem e2Loop_sp {stmt : P Node} {k : Nat} (h3 : Sp (s := s) (e3 stmt k)) (j : 
       · simp [raiseAt_ok] at h
       · simp only [bind_ok] at h
         obtain ⟨r, s4, hr, nd, s5, hcr, hloop⟩ := h
-        exact binop_round (step_sym ha hsym) (h3 _ _ _ hr) hcr (ih _ _ _ _ hloop)
+        exact binop_round (noEnd_at _ _) (step_sym ha hsym) (h3 _ _ _ hr) hcr (ih _ _ _ _ hloop)
 
 theorem e2_sp {stmt : P Node} {k : Nat} (h3 : Sp (s := s) (e3 stmt k)) : Sp (s := s) (e2 stmt k) :=
   sp_of_loop h3 (e2Loop_sp h3 k)
@@ -835,7 +929,7 @@ theorem e1_sp {stmt : P Node} {k : Nat} (hp : Sp (s := s) stmt) (h2 : Sp (s := s
     split at h
     · simp [raiseAt_ok] at h
     · exact (t0.trans ((step_sym ha1 hsym).trans ((hp _ _ _ hv).trans (step_create h)))).mono
-        (fun ⟨q0, q1, q2, q3⟩ => q3.mpr ((spans_assign _ _ _ _ _).mpr ⟨q0, q1, q2⟩))
+        (fun ⟨q0, q1, q2, q3⟩ => q3.mpr ((spans_assign _ _ _ _ _).mpr ⟨noEnd_at _ _, q0, q1, q2⟩))
   case false =>
     cases accept_false ha1
     simp only [Bool.false_eq_true, if_false, bind_ok] at h
@@ -848,7 +942,7 @@ theorem e1_sp {stmt : P Node} {k : Nat} (hp : Sp (s := s) stmt) (h2 : Sp (s := s
       split at h
       · simp [raiseAt_ok] at h
       · exact (t0.trans ((step_sym ha2 hsym).trans ((hp _ _ _ hv).trans (step_create h)))).mono
-          (fun ⟨q0, q1, q2, q3⟩ => q3.mpr ((spans_assign _ _ _ _ _).mpr ⟨q0, q1, q2⟩))
+          (fun ⟨q0, q1, q2, q3⟩ => q3.mpr ((spans_assign _ _ _ _ _).mpr ⟨noEnd_at _ _, q0, q1, q2⟩))
     case false =>
       cases accept_false ha2
       simp only [Bool.false_eq_true, if_false, bind_ok] at h
@@ -877,7 +971,7 @@ theorem e1_sp {stmt : P Node} {k : Nat} (hp : Sp (s := s) stmt) (h2 : Sp (s := s
           have t6 : Step s true true s11 { s11 with inTernary := false } True := Step.same rfl rfl rfl rfl
           have t7 := step_create (s := s) (w := true) hcr
           exact (t0.trans (t1.trans (t2.trans (t3.trans (t4.trans (t5.trans (t6.trans t7))))))).mono
-            (fun ⟨q0, q1, _, q3, q4, q5, _, q7⟩ => q7.mpr ((spans_ternary _ _ _ _ _ _).mpr ⟨q0, q1, q3, q4, q5⟩))
+            (fun ⟨q0, q1, _, q3, q4, q5, _, q7⟩ => q7.mpr ((spans_ternary _ _ _ _ _ _).mpr ⟨noEnd_at _ _, q0, q1, q3, q4, q5⟩))
 
 /-- `statement()` for every fuel -/
 theorem statement_sp (fuel : Nat) : Sp (s := s) (statement fuel) := by
@@ -920,7 +1014,7 @@ theorem foreach_tail_sp {stmt cb : P Node} (hp : Sp (s := s) stmt) (hcb : SpB s 
   have t4 := step_createSymbol (s := s) (w := true) hek
   have t5 := step_create (s := s) (w := true) hcr
   exact (t1.trans (t2.trans (t3.trans (t4.trans t5)))).mono
-    (fun ⟨q1, q2, q3, q4, q5⟩ hk hv hc => q5.mpr ((spans_foreach _ _ _ _ _ _ _ _).mpr ⟨hk, hv, hc, q1, q2, q3, q4⟩))
+    (fun ⟨q1, q2, q3, q4, q5⟩ hk hv hc => q5.mpr ((spans_foreach _ _ _ _ _ _ _ _).mpr ⟨noEnd_at _ _, hk, hv, hc, q1, q2, q3, q4⟩))
 
 theorem foreachBlock_sp {stmt cb : P Node} (hp : Sp (s := s) stmt) (hcb : SpB s cb) {s0 st st' : PState} {n : Node}
     (ha : accept .kForeach s0 = .ok (true, st)) (h : foreachBlock stmt cb st = .ok (n, st')) :
@@ -929,7 +1023,7 @@ theorem foreachBlock_sp {stmt cb : P Node} (hp : Sp (s := s) stmt) (hcb : SpB s 
   obtain ⟨tk, s1, hpv, kw, s2, hkw, _, s3, hex, p, s4, hpv2, v1, s5, hv1, b, s6, hcm, h⟩ := h
   cases hpv; cases hpv2
   have t1 := step_sym (s := s) (w := true) ha hkw
-  have t2 := step_leaf (s := s) (w := true) (expect_spec hex) hv1 (spans_id _ _)
+  have t2 := step_leaf (s := s) (w := true) (expect_spec hex) hv1 ((spans_id _ _).mpr (noEnd_ofTok _))
   cases b
   case false =>
     cases accept_false hcm
@@ -946,7 +1040,7 @@ theorem foreachBlock_sp {stmt cb : P Node} (hp : Sp (s := s) stmt) (hcb : SpB s 
     have tt := foreach_tail_sp (kw := kw) (vars := [v1, v2]) (commas := [c]) hp hcb
       (by simp only [bind_ok, prev_ok]; exact h)
     have t3 := step_sym (s := s) (w := true) hcm hc
-    have t4 := step_leaf (s := s) (w := true) (expect_spec hex2) hv2 (spans_id _ _)
+    have t4 := step_leaf (s := s) (w := true) (expect_spec hex2) hv2 ((spans_id _ _).mpr (noEnd_ofTok _))
     exact (t1.trans (t2.trans (t3.trans (t4.trans tt)))).mono
       (fun ⟨q1, q2, q3, q4, q5⟩ =>
         q5 q1 ((spansL_cons _ _).mpr ⟨q2, (spansL_cons _ _).mpr ⟨q4, spansL_nil⟩⟩)
@@ -979,7 +1073,7 @@ theorem elseifLoop_sp {stmt cb : P Node} (hp : Sp (s := s) stmt) (hcb : SpB s cb
       have t6 := ih hloop
       exact (t1.trans (t2.trans (t3.trans (t4.trans (t5.trans t6))))).mono
         (fun ⟨q1, q2, _, q4, q5, q6⟩ hifs =>
-          q6 ((spansL_snoc _ _).mpr ⟨hifs, q5.mpr ((spans_ifnode _ _ _ _).mpr ⟨q1, q2, q4⟩)⟩))
+          q6 ((spansL_snoc _ _).mpr ⟨hifs, q5.mpr ((spans_ifnode _ _ _ _).mpr ⟨noEnd_at _ _, q1, q2, q4⟩)⟩))
 
 theorem elseBlock_sp {cb : P Node} (hcb : SpB s cb) {st st' : PState} {n : Node}
     (h : elseBlock cb st = .ok (n, st')) : Step s true true st st' (Spans s n) := by
@@ -990,7 +1084,7 @@ theorem elseBlock_sp {cb : P Node} (hcb : SpB s cb) {st st' : PState} {n : Node}
     cases accept_false ha
     simp only [Bool.false_eq_true, if_false, emptyAtCur] at h
     cases h
-    exact Step.refl (spans_empty _)
+    exact Step.refl ((spans_empty _).mpr (noEnd_at _ _))
   case true =>
     simp only [if_true, bind_ok, prev_ok, pure_ok] at h
     obtain ⟨tk, s2, hpv, kw, s3, hkw, _, s4, hex, b, s5, hb, h⟩ := h
@@ -998,7 +1092,7 @@ theorem elseBlock_sp {cb : P Node} (hcb : SpB s cb) {st st' : PState} {n : Node}
     have t1 := step_sym (s := s) (w := true) ha hkw
     have t2 := step_expect (s := s) (w := true) hex
     have t3 := hcb _ _ _ hb
-    exact (t1.trans (t2.trans t3)).mono (fun ⟨q1, _, q3⟩ => (spans_elsenode _ _ _).mpr ⟨q1, q3⟩)
+    exact (t1.trans (t2.trans t3)).mono (fun ⟨q1, _, q3⟩ => (spans_elsenode _ _ _).mpr ⟨noEnd_at _ _, q1, q3⟩)
 
 theorem ifBlock_sp {stmt cb : P Node} (hp : Sp (s := s) stmt) (hcb : SpB s cb) (k : Nat) {s0 st st' : PState}
     {n : Node} (ha : accept .kIf s0 = .ok (true, st)) (h : ifBlock stmt cb k st = .ok (n, st')) :
@@ -1019,7 +1113,9 @@ theorem ifBlock_sp {stmt cb : P Node} (hp : Sp (s := s) stmt) (hcb : SpB s cb) (
   exact (t1.trans (t2.trans (t3.trans (t4.trans (t5.trans (t6.trans (t7.trans (t8.trans t9)))))))).mono
     (fun ⟨q1, q2, _, _, q5, q6, q7, q8, q9⟩ =>
       (spans_ifclause _ _ _ _).mpr
-        ⟨q7 ((spansL_cons _ _).mpr ⟨q6.mpr ((spans_ifnode _ _ _ _).mpr ⟨q1, q2, q5⟩), spansL_nil⟩), q8, q9⟩)
+        ⟨by rw [(create_spec hcl).1]; exact ⟨rfl, rfl⟩,
+          q7 ((spansL_cons _ _).mpr ⟨q6.mpr ((spans_ifnode _ _ _ _).mpr ⟨noEnd_at _ _, q1, q2, q5⟩), spansL_nil⟩),
+          q8, q9⟩)
 
 /-- a line may leave the trivia after its closing keyword pending -/
 def SpLine (s : Str) (f : P Node) : Prop := ∀ st n st', f st = .ok (n, st') → Step s true false st st' (Spans s n)
@@ -1031,7 +1127,7 @@ theorem line_sp {stmt cb : P Node} (hp : Sp (s := s) stmt) (hcb : SpB s cb) (k :
   cases hbs
   split at h
   · simp only [emptyAtCur] at h; cases h
-    exact (Step.refl (spans_empty _)).weak
+    exact (Step.refl ((spans_empty _).mpr (noEnd_at _ _))).weak
   · simp only [bind_ok] at h
     obtain ⟨b1, s1, ha1, h⟩ := h
     cases b1
@@ -1059,7 +1155,7 @@ theorem line_sp {stmt cb : P Node} (hp : Sp (s := s) stmt) (hcb : SpB s cb) (k :
           simp only [if_true, bind_ok, cur_ok] at h
           obtain ⟨c, s4, hc, hcr⟩ := h
           cases hc
-          exact (step_leaf ha3 hcr (spans_continue _)).weak
+          exact (step_leaf ha3 hcr ((spans_continue _).mpr (noEnd_ofTok _))).weak
         case false =>
           cases accept_false ha3
           simp only [Bool.false_eq_true, if_false, bind_ok] at h
@@ -1069,7 +1165,7 @@ theorem line_sp {stmt cb : P Node} (hp : Sp (s := s) stmt) (hcb : SpB s cb) (k :
             simp only [if_true, bind_ok, cur_ok] at h
             obtain ⟨c, s5, hc, hcr⟩ := h
             cases hc
-            exact (step_leaf ha4 hcr (spans_break _)).weak
+            exact (step_leaf ha4 hcr ((spans_break _).mpr (noEnd_ofTok _))).weak
           case false =>
             cases accept_false ha4
             simp only [Bool.false_eq_true, if_false] at h
@@ -1081,7 +1177,7 @@ theorem spans_blockAppendLine {block l : Node} (hb : Spans s block) (hl : Spans 
   split
   · exact hb
   · rw [spans_codeblock] at hb ⊢
-    exact (spansL_snoc _ _).mpr ⟨hb, hl⟩
+    exact ⟨hb.1, (spansL_snoc _ _).mpr ⟨hb.2, hl⟩⟩
 
 theorem codeblockLoop_sp {stmt cb : P Node} (hp : Sp (s := s) stmt) (hcb : SpB s cb) (k : Nat) (j : Nat) :
     ∀ {block n : Node} {st st' : PState}, codeblockLoop stmt cb k j block st = .ok (n, st') →
@@ -1119,14 +1215,14 @@ theorem codeblock_sp (fuel : Nat) : SpB s (codeblock fuel) := by
     cases hc
     have t1 := step_create (s := s) (w := false) hcr
     have t2 := (codeblockLoop_sp (statement_sp m) ih m m hloop).strong
-    exact (t1.trans t2).mono (fun ⟨q1, q2⟩ => q2 (q1.mpr ((spans_codeblock _ _ _).mpr spansL_nil)))
+    exact (t1.trans t2).mono (fun ⟨q1, q2⟩ => q2 (q1.mpr ((spans_codeblock _ _ _).mpr ⟨noEnd_at _ _, spansL_nil⟩)))
 
 
 /-! ### `Parser(code).parse()` -/
 
 theorem streamOk_of_chain : ∀ (toks : List Token) (pre : Str), OffChain pre.length toks →
-    (∀ t ∈ toks, printed t = t.text ∧ lineOff s t.lineno + t.colno = t.spanStart ∧
-      ((t.tid = .rparen ∨ t.tid = .rbracket) → t.text.length = 1)) →
+    (∀ t ∈ toks, printed t = t.text ∧ Addr s t.lineno t.colno t.spanStart ∧
+      (isCloser t.tid → t.text.length = 1 ∧ countNl t.text = 0)) →
     s = pre ++ restText toks → StreamOk s toks := by
   intro toks
   induction toks with
@@ -1136,16 +1232,16 @@ theorem streamOk_of_chain : ∀ (toks : List Token) (pre : Str), OffChain pre.le
     obtain ⟨hs, hc⟩ := hch
     obtain ⟨h1, h2, h3⟩ := hall t List.mem_cons_self
     have hrt : restText (t :: ts) = printed t ++ restText ts := by simp [restText]
-    refine ⟨⟨pre, by rw [heq, hrt], by rw [h2, hs], fun hcl => by rw [h1]; exact h3 hcl⟩, ?_⟩
+    refine ⟨⟨pre, by rw [heq, hrt], by rw [← hs]; exact h2, fun hcl => by rw [h1]; exact h3 hcl⟩, ?_⟩
     refine ih (pre ++ t.text) (by simpa using hc) (fun x hx => hall x (List.mem_cons_of_mem _ hx)) ?_
     rw [heq, hrt, h1]; simp [List.append_assoc]
 
 /-- the lexer establishes the stream invariant -/
 theorem lex_streamOk (s : Str) (he : (lex s).err = none) : StreamOk s (lex s).toks := by
   have hp := lex_printed s
-  have ho := lex_token_offsets s
-  have hc := lex_close s
-  refine streamOk_of_chain (lex s).toks [] (lex_chain s) (fun t ht => ⟨(hp t ht).2, (ho t ht).1, hc t ht⟩) ?_
+  have ho := lex_token_linecol s
+  have hc := lex_closer s
+  refine streamOk_of_chain (lex s).toks [] (lex_chain s) (fun t ht => ⟨(hp t ht).2, ho t ht, hc t ht⟩) ?_
   rw [restText_eq_texts (fun t ht => (hp t ht).2)]
   exact (lex_complete s he).symm
 
@@ -1168,7 +1264,7 @@ theorem parseToks_spans {names : List (Str × Nat)} {lr : LexResult} {fuel : Nat
         have d2 : s2.lossy = 0 := (step_expect (s := s) (w := false) hex).back hl
         exact ((codeblock_sp fuel _ _ _ hcb).fwd d2 (fun h => by cases h) y1).2.2
 
-/-- every call / array node of an accepted input has an exact extent -/
+/-- every node of an accepted input has exact position fields -/
 theorem parse_spans {s : Str} {names : List (Str × Nat)} {r : ParseOk}
     (h : parseWith names s = .ok r) (hl : r.lossy = 0) : Spans s r.tree := by
   unfold parseWith at h
